@@ -706,6 +706,37 @@ func scenarios() []*scenario {
 		add(op{kind: opAdvance, dur: 2 * time.Hour, name: "Advance(2h)"})
 		out = append(out, sc)
 	}
+	// --- scenario 8: many alternative routes to ONE destination that is also a
+	// direct peer (section of up to four entries: peer route + three gossip
+	// routes), refreshed with better / equal / worse cost in every order.
+	{
+		R := ip("fd10:1::1")
+		P1, P2, P3 := ip("fd10:2::b"), ip("fd10:3::c"), ip("fd10:8::d")
+		X, Y := ip("fd10:7::7"), ip("fd10:9::9")
+		cfg := func() m.RoutingTableConfig {
+			return m.RoutingTableConfig{RouterIP: R, RoutablePrefixes: []m.RoutablePrefix{
+				{BasePrefix: m.BaseNetPrefix, RoutingBits: 12, EntryTTL: 3 * time.Hour, EntriesPerPrefix: 2},
+			}}
+		}
+		sc := &scenario{name: "one-destination-many-routes", cfg: cfg, router: R, limitOf: limitFrom(cfg()),
+			probes: []netip.Addr{P1, P2, P3, X},
+			depth:  [2]int{6, 7}, maxState: [2]int{60000, 1500000}}
+		add := func(o op) { sc.ops = append(sc.ops, o) }
+		add(op{kind: opAddPeer, dst: P2, name: "AddPeer(P2)"})
+		for _, r := range []struct {
+			n      string
+			via    netip.Addr
+			relays []netip.Addr
+		}{{"P1", P1, nil}, {"P3", P3, nil}, {"P1+X", P1, []netip.Addr{X}}, {"P3+Y", P3, []netip.Addr{Y}}} {
+			for _, d := range []uint16{5, 20} {
+				add(op{kind: opAddGossip, dst: P2, via: r.via, relays: r.relays, delay: d, expires: time.Hour, name: fmt.Sprintf("Gossip(P2 via %s,%dms)", r.n, d)})
+			}
+		}
+		add(op{kind: opRemoveNextHop, via: P3, name: "RemoveNextHop(P3)"})
+		add(op{kind: opRemoveDisconnected, dst: P2, name: "RemoveDisconnected(P2)"})
+		add(op{kind: opClean, name: "Clean"})
+		out = append(out, sc)
+	}
 	return out
 }
 
